@@ -173,7 +173,11 @@ class SymExec:
         for s in body.get("stmts", []):
             self.stmt(s)
         if body.get("expr") is not None:
-            self.ret = self.ev(body["expr"])
+            tail = strip(body["expr"])
+            if tail.get("ty") == "()" and tail.get("k") in ("Block", "Assign", "AssignOp"):
+                self.stmt({"k": "Expr", "e": tail})      # a unit-typed tail is a statement
+            else:
+                self.ret = self.ev(body["expr"])
         return self.ret
 
     def stmt(self, s):
